@@ -106,13 +106,15 @@ type World struct {
 	svc   *swap.SwapService
 	tmr   *swap.VerifTimeouts
 
-	obs     []Obs
-	effects int  // number of effectful calls so far (crash index)
-	crashAt int  // 0 = never; the effect with this number is the last one that happens
-	dead    bool // set once crashAt is reached
-	faults  map[string][]string
-	idNames map[string]string
-	secrets map[string]string // secret value (hex) -> label
+	obs       []Obs
+	effects   int  // number of effectful calls so far (crash index)
+	crashAt   int  // 0 = never; the effect with this number is the last one that happens
+	dead      bool // set once crashAt is reached
+	faults    map[string][]string
+	idNames   map[string]string
+	secrets   map[string]string // secret value (hex) -> label
+	revealed  map[string]bool   // swap id -> a coop_close with a key has been sent
+	crashNote *Obs
 }
 
 type WorldCfg struct {
@@ -141,7 +143,7 @@ func newWorld(cfg WorldCfg) *World {
 	if err != nil {
 		panic(err)
 	}
-	w := &World{dir: dir, faults: map[string][]string{}, idNames: map[string]string{}, secrets: map[string]string{}}
+	w := &World{dir: dir, faults: map[string][]string{}, idNames: map[string]string{}, secrets: map[string]string{}, revealed: map[string]bool{}}
 	w.pol = &simPolicy{w: w, acceptAll: cfg.AcceptAll, allow: map[string]bool{}, susp: map[string]bool{}, minMsat: cfg.MinSwapMsat, allowNew: true}
 	for _, p := range cfg.Allowlist {
 		w.pol.allow[p] = true
@@ -204,6 +206,7 @@ func (w *World) boot(btc, lbtc bool) {
 // restart discards all volatile state of the node (service object, timers, retransmitters, watcher
 // registrations, payment notifiers) and recovers from the database.
 func (w *World) restart() {
+	w.flushCrashNote()
 	w.dead = false
 	w.crashAt = 0
 	w.mgr.stopAll()
@@ -229,6 +232,34 @@ func (w *World) note(o Obs) {
 		return
 	}
 	w.obs = append(w.obs, o)
+	if w.crashNote != nil && o.Kind != "crash" {
+		c := *w.crashNote
+		w.crashNote = nil
+		w.obs = append(w.obs, c)
+	}
+}
+
+// claimPayStatus is the Lightning payment table's entry for the claim invoice the PEER issued for the swap.
+func (w *World) claimPayStatus(swapId string) payStatus {
+	st := payNone
+	for _, inv := range w.ln.invoices {
+		if inv.swapId == swapId && inv.kind == swap.INVOICE_CLAIM && !inv.ours {
+			if s := w.ln.payments[inv.hash]; s > st || st == payNone {
+				if s == paySucceeded || s == payPending || st == payNone {
+					st = s
+				}
+			}
+		}
+	}
+	return st
+}
+
+func (w *World) flushCrashNote() {
+	if w.crashNote != nil {
+		c := *w.crashNote
+		w.crashNote = nil
+		w.obs = append(w.obs, c)
+	}
 }
 
 func sameObs(a, b Obs) bool {
@@ -261,7 +292,8 @@ func (w *World) effect(kind string) (takesEffect bool, reportErr bool) {
 	w.effects++
 	if w.crashAt != 0 && w.effects >= w.crashAt {
 		w.dead = true
-		w.note(Obs{Kind: "crash", A: map[string]string{"in": kind, "n": fmt.Sprint(w.effects)}})
+		// the crash is noted after the observation of the effect it interrupts
+		w.crashNote = &Obs{Kind: "crash", A: map[string]string{"in": kind, "n": fmt.Sprint(w.effects)}}
 		return true, true
 	}
 	return true, false
@@ -333,7 +365,18 @@ func (l *logStore) UpdateData(s *swap.SwapStateMachine) error {
 	}
 	err := l.inner.UpdateData(s)
 	if err == nil {
-		l.w.note(Obs{Kind: "persist", Swap: l.w.name(s.SwapId.String()), A: recFlags(s)})
+		fl := recFlags(s)
+		fl["pay"] = "none"
+		if s.Data.OpeningTxBroadcasted != nil {
+			if inv, ok := l.w.ln.invoices[s.Data.OpeningTxBroadcasted.Payreq]; ok {
+				fl["pay"] = l.w.ln.payments[inv.hash].String()
+			}
+		}
+		fl["revealed"] = "0"
+		if l.w.revealed[s.SwapId.String()] {
+			fl["revealed"] = "1"
+		}
+		l.w.note(Obs{Kind: "persist", Swap: l.w.name(s.SwapId.String()), A: fl})
 	}
 	if rep && err == nil {
 		return errDead
@@ -424,7 +467,20 @@ func (m *simMessenger) SendMessage(peerId string, msg []byte, msgType int) error
 		SwapId string `json:"swap_id"`
 	}
 	json.Unmarshal(msg, &id)
-	m.w.note(Obs{Kind: "send", Swap: m.w.name(id.SwapId), A: map[string]string{"to": shortPeer(peerId), "type": msgTypeName(msgType), "sha": shortHash(msg)}})
+	if messages.MessageType(msgType) == messages.MESSAGETYPE_COOPCLOSE {
+		var cc struct {
+			Privkey string `json:"privkey"`
+		}
+		json.Unmarshal(msg, &cc)
+		if cc.Privkey != "" {
+			m.w.revealed[id.SwapId] = true
+		}
+	}
+	a := map[string]string{"to": shortPeer(peerId), "type": msgTypeName(msgType), "sha": shortHash(msg)}
+	if messages.MessageType(msgType) == messages.MESSAGETYPE_COOPCLOSE {
+		a["pay"] = m.w.claimPayStatus(id.SwapId).String()
+	}
+	m.w.note(Obs{Kind: "send", Swap: m.w.name(id.SwapId), A: a})
 	if rep {
 		return errDead
 	}
